@@ -57,6 +57,27 @@ def make_gen(tag, widths_hi=70):
                 nid = len(nodes)
                 nodes.append({'id': nid, 'kind': 'Reg', 'p': {'en': False, 'rs': False, 'rv': 0}, 'ins': [r], 'ow': [w], 'grp': []})
                 bins.append('n%d.0' % nid)
+        # several 1-bit ports of the block fed by one multi-output driver (the bits of one status word, from one splitter)
+        onebit = [j for j, r in enumerate(ins) if pool.inputs[int(r[1:])]['w'] == 1 and j not in nz]
+        if len(onebit) >= 2 and rng.random() < 0.3:
+            take = onebit if rng.random() < 0.5 else rng.sample(onebit, rng.randint(2, len(onebit)))
+            word = pool.new_input(len(take))[0]
+            rid = len(nodes)
+            nodes.append({'id': rid, 'kind': 'Reg', 'p': {'en': False, 'rs': False, 'rv': 0}, 'ins': [word], 'ow': [len(take)], 'grp': []})
+            sid = len(nodes)
+            nodes.append({'id': sid, 'kind': 'BitsLSBF', 'p': {}, 'ins': ['n%d.0' % rid], 'ow': [1] * len(take), 'grp': []})
+            for k2, j in enumerate(take):
+                bins[j] = 'n%d.%d' % (sid, k2)
+        # one port driven by a Constant block (instantiated before the block under test) whose value attribute is
+        # re-assigned between cycles (the idiom of the unit tests: c.value = v)
+        const_id = None
+        cand = [j for j in range(len(ins)) if j not in nz and bins[j][0] == 'i']
+        if cand and rng.random() < 0.12:
+            j = rng.choice(cand)
+            w = pool.inputs[int(ins[j][1:])]['w']
+            const_id = len(nodes)
+            nodes.append({'id': const_id, 'kind': 'Constant', 'p': {'value': rng.getrandbits(w)}, 'ins': [], 'ow': [w], 'grp': []})
+            bins[j] = 'n%d.0' % const_id
         bid = len(nodes)
         nodes.append({'id': bid, 'kind': k.name, 'p': params, 'ins': bins, 'ow': ows, 'grp': []})
         outs = []
@@ -67,7 +88,7 @@ def make_gen(tag, widths_hi=70):
         d = {'inputs': pool.inputs, 'nodes': nodes, 'outputs': outs + ['n%d.%d' % (bid, j) for j in range(len(ows))],
              'order': [n['id'] for n in nodes], 'block': bid, 'nonzero_inputs': [int(ins[j][1:]) for j in nz]}
         # wire names are unique per owner only: an inner wire may carry the name of a wire of the enclosing system
-        inner = [r for r in bins if r[0] == 'n']
+        inner = [r for r in bins if r[0] == 'n' and nodes[netlist.parse_ref(r)[1]]['kind'] == 'Reg' and nodes[netlist.parse_ref(r)[1]]['ins'][0][0] == 'i']
         if inner and len(pool.inputs) > 1 and rng.random() < 0.15:
             r = rng.choice(inner)
             src = nodes[netlist.parse_ref(r)[1]]['ins'][0]
@@ -93,10 +114,15 @@ def make_gen(tag, widths_hi=70):
             step = {'vec': vec, 'faults': [f for f in ('resort', 'sim_restart', 'extra_settle') if fr.random() < 0.06]}
             if fr.random() < 0.1:
                 step['clk0'] = True
+            if const_id is not None and fr.random() < 0.3:
+                step['const'] = [const_id, fr.getrandbits(nodes[const_id]['ow'][0])]
             if k.name in ('ShiftLeftConstant', 'ShiftRightConstant') and fr.random() < 0.08:
                 step['param_n'] = fr.randint(0, ows[0] + 2)      # the shift amount is a block parameter: it is re-assigned between cycles
             steps.append(step)
-        return {'design': d, 'order': order, 'perm': rs.sub('perm') if fr.random() < 0.7 else None, 'steps': steps}
+        # late: the simulator is fetched when only the first blocks exist; the rest (in whatever sub-block it lives) is
+        # instantiated afterwards and the simulator fetched again
+        return {'design': d, 'order': order, 'perm': rs.sub('perm') if fr.random() < 0.7 else None, 'steps': steps,
+                'late': fr.randint(0, len(order) - 1) if (fr.random() < 0.15 and order) else None}
     return gen
 
 
@@ -105,7 +131,15 @@ def run(scn, log, st):
     d = copy.deepcopy(scn['design'])      # the run updates block parameters in its private copy
     blk = next(n for n in d['nodes'] if n['id'] == d['block'])
     log.add('block', blk['kind'], repr(sorted(blk['p'].items())), [netlist.sig_widths(d)[r] for r in blk['ins']], blk['ow'])
-    b = netlist.Built(d).build(scn['order'])
+    b = netlist.Built(d)
+    late = scn.get('late')
+    if late is not None:
+        b.build(scn['order'][:late])
+        with quiet():
+            b.hw.getSimulator()
+        st.fault('late_add')
+        st.probe('block_added_after_simulator')
+    b.build(scn['order'])
     st.sched(tuple(scn['order']), scn.get('perm'), tuple(tuple(s['faults']) for s in scn['steps']))
     if scn.get('perm') is not None:
         seams.perm_children(b.hw, random.Random(scn['perm']), st)
@@ -118,7 +152,9 @@ def run(scn, log, st):
         ref.set_inputs(scn['steps'][0]['vec'])
     ref.settle()
     where = 'after simulator creation'
-    netlist.compare(b, ref.vals, 0, where, sigprefix='fn', use_poison=False)
+    if late is None:
+        # (an existing simulator is re-sorted by getSimulator(), not re-settled: compared from the first clk() on)
+        netlist.compare(b, ref.vals, 0, where, sigprefix='fn', use_poison=False)
     outs_seen = set()
     for si, step in enumerate(scn['steps'], 1):
         for f in step['faults']:
@@ -136,6 +172,12 @@ def run(scn, log, st):
             b.objs[d['block']].addParameter('n', step['param_n'])
             blk['p'] = dict(blk['p'], n=step['param_n'])
             st.fault('param_update')
+        if step.get('const') and step['const'][0] in b.objs:
+            cn = next(n for n in d['nodes'] if n['id'] == step['const'][0])
+            b.objs[cn['id']].value = step['const'][1]
+            cn['p'] = dict(cn['p'], value=step['const'][1])
+            st.fault('const_update')
+            st.probe('constant_reassigned')
         b.set_inputs(step['vec'])
         ref.set_inputs(step['vec'])
         ref.settle()
@@ -173,6 +215,8 @@ def shrink(scn):
     yield from shrink_list(scn, 'steps', 1)
     if scn.get('perm') is not None:
         yield dict(scn, perm=None)
+    if scn.get('late') is not None:
+        yield dict(scn, late=None)
     if any(s['faults'] for s in scn['steps']):
         yield dict(scn, steps=[dict(s, faults=[]) for s in scn['steps']])
     canon = sorted(scn['order'])
